@@ -39,7 +39,7 @@ def run(tier, replay):
     else:
         kp = os.path.join(wv.RUN, PID, "keys.txt")
         gen_keys(res, kp)
-        events = wv.record(res, PID, [(exe, ["codec", 50 if tier == "quick" else 120, 0 if tier == "quick" else 1]), (exe, ["keys", kp])])
+        events = wv.record(res, PID, [(exe, ["codec", 50 if tier == "quick" else 400, 0 if tier == "quick" else 1]), (exe, ["keys", kp])])
     bad, st = wv.validate_trace("Base64Trace", events, name=PID + "/tlc", shards=8)
     keys = set((e["e"], tuple(e.get("in", e.get("s", e.get("key", []))))) for e in events)
     acc = sum(1 for e in events if e["e"] == "valid" and e["res"] == 1)
